@@ -264,6 +264,9 @@ def build_case(inst, frames, one_per_call=True):
 
 
 def run_shard(campaign, shard, nshards, seed, tier):
+    if campaign == 'api':
+        import apiuse
+        return apiuse.run_api('C05', shard, nshards, seed, tier)
     part = Part()
     rng = random.Random('%s/%s/%s' % (seed, campaign, shard))
     quick = tier != 'thorough'
@@ -334,4 +337,6 @@ def run(ctx):
     run_sharded(ctx, 'C05', 'random')
     run_sharded(ctx, 'C05', 'interrupts')
     ctx.exhaustive['all alphabet sequences up to length %d for each of the 12 configurations' % (2 if ctx.quick else 3)] = True
-    return RULE, ASSUME
+    run_sharded(ctx, 'C05', 'api', nshards=2)
+    import apiuse
+    return RULE + apiuse.rule_text('C05'), ASSUME
